@@ -132,6 +132,13 @@ def dhcp_rules(ck, agg, nn):
                 if not leases:
                     wr = [e for e in out.trace if e.kind == "summary" and e.data[0] == "_write"]
                     agg.add("R16.3", f, "no reply without a lease", not wr, "%s: reply sent although nothing was leased" % label)
+                    # "a released address becomes available again": a request goes unanswered only because the table - as it is now -
+                    # holds every child address of the relaying node: each candidate was looked up in the table (no verdict remembered
+                    # from an earlier request, no shortcut on other state)
+                    passes = [e for e in out.trace if e.kind == "for" and _is_table_items(e.data[0])]
+                    agg.add("R16.9", f, "a request is refused only after every child address of the relaying node was looked up in the table", len(passes) >= len(want),
+                            "%s: returns without a lease after %d pass(es) over the table for %d candidate addresses - the refusal does not come from the table's present content [tests: %s]" % (
+                                label, len(passes), len(want), sorted({ast.unparse(e.node)[:50] for e in out.trace if e.kind == "cond" and e.func is f})[:6]))
                     continue
                 idv, addrv, kw, rest = leases[0].data
                 cand = const_of(norm(addrv))
